@@ -531,10 +531,14 @@ class Fn:
             if teff is not None:
                 return ctx.val("effs ++ [%s]" % teff)
         if ctx.val is None:
-            # value of a statement-position expression is dropped
+            # an expression in statement position (the arm of a `match` used as a statement, ..): translated as the
+            # statement `e;` - an effect, an update, a state call - and refused when it is none of these (it used to be
+            # dropped unseen: `match dir { Push => create_remote_dirs(..).await?, .. }` lost its calls)
             if ctx.fall is None:
                 raise Unsupported("expression statement without continuation")
-            return ctx.fall(env)
+            if e[0] == "tuple" and not e[1]:
+                return ctx.fall(env)
+            return self.stmts([("expr", e, True)], None, env, Ctx(val=None, ret=ctx.ret, fall=ctx.fall, cont=getattr(ctx, "cont", None)))
         return ctx.val(self.ex(e, env))
 
     def match(self, e, env, ctx):
@@ -1797,6 +1801,99 @@ def functions():
         return "Definition g_run_local (opts : OneWay.opts) (jobs : Z) (verbose : bool) : list leff :=\n  %s." % text
     out.append(("run_local", "src/bin/copia/incremental.rs run_local", None, t_run_local))
 
+    SPAWN_REMOTE = """{
+    let remote_file = format!("{}/{}", remote_root, rel.display());
+    let local_file = local_root.join(rel);
+    let host = host.to_string();
+    let sem = Arc::clone(&semaphore);
+    let prog = progress.clone();
+    let rel_disp = rel.display().to_string();
+    handles.push(tokio::spawn(async move {
+        let _permit = sem.acquire().await;
+        let res = match dir {
+            Dir::Push => transfer_file_to_remote(&local_file, &host, &remote_file, mtime).await,
+            Dir::Pull => deliver_pull(&host, &remote_file, &local_file, mtime).await,
+        };
+        match res {
+            Ok(size) => prog.record_ok(size),
+            Err(e) => prog.record_err(&rel_disp, &e),
+        }
+    }));
+}"""
+    DESC_LET = """{
+    let (src_desc, dst_desc) = match dir {
+        Dir::Push => (
+            local_root.display().to_string(),
+            format!("{host}:{remote_root}"),
+        ),
+        Dir::Pull => (
+            format!("{host}:{remote_root}"),
+            local_root.display().to_string(),
+        ),
+    };
+}"""
+
+    def t_run_remote():
+        src = read("src/bin/copia/incremental.rs")
+        params, ret, body = R.find_fn(src, "run_remote", None)
+        norm = lambda x: json.loads(json.dumps(x))
+        want = R.Parser(R.tokenize(SPAWN_REMOTE)).block()[1]
+        loops = [st for st in body[1] if st[0] == "for" and norm(st[2]) == norm(("field", ("path", ["plan"]), "transfer"))]
+        if len(loops) != 1:
+            raise Unsupported("run_remote: expected exactly one loop over plan.transfer")
+        lb = list(loops[0][3][1])
+        if loops[0][3][2] is not None or len(lb) != 1 + len(want) or norm(lb[1:]) != norm(want) or lb[0][0] != "let" or lb[0][1] != ("pbind", "mtime"):
+            raise Unsupported("run_remote: a planned file is no longer handed to the reviewed `tokio::spawn(async move { .. transfer_file_to_remote / deliver_pull .. })` with remote_file = remote_root/rel and local_file = local_root.join(rel)")
+        new_loop = ("for", loops[0][1], loops[0][2], ("block", [lb[0], ("expr", ("call", ("path", ["SPAWN_REMOTE"]), [("path", ["dir"]), ("path", ["rel"]), ("path", ["mtime"])]), True)], None))
+        # the two descriptions are text for messages: the statement that builds them is checked literally and dropped, and
+        # they may occur nowhere but in the closing report(..) call
+        want_desc = R.Parser(R.tokenize(DESC_LET)).block()[1][0]
+        descs = [st for st in body[1] if st[0] == "let" and st[1][0] == "ptuple" and norm(st) == norm(want_desc)]
+        if len(descs) != 1:
+            raise Unsupported("run_remote: src_desc / dst_desc are no longer built by the reviewed statement")
+        stmts = [new_loop if st is loops[0] else st for st in body[1] if st is not descs[0]]
+        tail = body[2]
+        if tail is None or tail[0] != "call" or tail[1] != ("path", ["report"]):
+            raise Unsupported("run_remote no longer ends with report(..)")
+        tail = ("call", tail[1], [a for a in tail[2] if a not in (("path", ["src_desc"]), ("path", ["dst_desc"]))])
+        def uses(n):
+            if isinstance(n, tuple):
+                if len(n) == 2 and n[0] == "path" and list(n[1]) in (["src_desc"], ["dst_desc"]):
+                    return True
+                return any(uses(x) for x in n)
+            if isinstance(n, list):
+                return any(uses(x) for x in n)
+            return False
+        if uses(stmts) or uses(tail):
+            raise Unsupported("run_remote: src_desc / dst_desc are used outside messages")
+        if [n for n, _ in params] != ["dir", "host", "remote_root", "local_root", "opts"]:
+            raise Unsupported("signature of run_remote is %s" % params)
+        spec = dict(try_transparent=True, prints_ignored=True,
+                    print_effects=[("No files found", "ENoFiles"), ("Already up to date", "EUpToDate")],
+                    paths={"Dir::Push": "Push", "Dir::Pull": "Pull"},
+                    fields={("SyncOptions", "delete"): ("(o_delete {0})", "bool"), ("SyncOptions", "excludes"): ("(o_excludes {0})", "[String]"),
+                            ("SyncOptions", "dry_run"): ("(o_dry_run {0})", "bool"), ("SyncOptions", "jobs"): ("jobs (* {0} *)", "usize"),
+                            ("SyncOptions", "verbose"): ("verbose (* {0} *)", "bool"),
+                            ("SyncPlan", "transfer"): ("(transfer {0})", "Vec<PathBuf>"), ("SyncPlan", "delete"): ("(sp_delete {0})", "Vec<PathBuf>"),
+                            ("FileMeta", "mtime"): ("(fm_mtime {0})", "i64")},
+                    calls={"Instant::now": ("tt", "Instant"), "discover_local_with_meta": ("local_meta (* {0} *)", "MetaMap"),
+                           "discover_remote_with_meta": ("remote_meta (* {0} {1} *)", "MetaMap"),
+                           ".unwrap_or_default": ("{0}", "MetaMap"), "build_plan": ("build_plan {0} {1} {2} {3}", "SyncPlan"),
+                           "collect_dirs": ("collect_dirs {0}", "Vec<PathBuf>"), "Arc::new": ("tt (* {0} *)", "Sem"), "Semaphore::new": ("tt (* {0} *)", "Sem"),
+                           "TransferProgress::new": ("tt (* {0} *)", "Progress"), "Vec::with_capacity": ("tt (* {0} *)", "Handles"),
+                           ".get": ("mm_get {1} {0}", "Option<FileMeta>"),
+                           "report": ("effs ++ [RReport] (* {0} {1} {3} *)", "Result")},
+                    effects={"print_plan": "RPrintPlan {0} {1}", "create_remote_dirs": "RCreateDirs Push {2} (* {0} {1} *)",
+                             "create_local_dirs": "RCreateDirs Pull {1} (* {0} *)", "SPAWN_REMOTE": "RSpawn {0} {1} {2}",
+                             "join_handles": "RJoin (* {0} *)", "apply_remote_deletes": "RDeletes {0} {4} (* {1} {2} {3} *)"},
+                    param_types={"dir": "Dir"},
+                    ok=lambda s_: "effs", prologue="let effs := [] in ")
+        fn = Fn(spec)
+        env = {"dir": "Dir", "host": "str", "remote_root": "str", "local_root": "Path", "opts": "SyncOptions"}
+        text = spec["prologue"] + fn.block(("block", stmts, tail), env, Ctx(val=(lambda x: x), ret=(lambda x: x), fall=None))
+        return "Definition g_run_remote (dir : rdir) (opts : OneWay.opts) (jobs : Z) (verbose : bool) : list reff :=\n  %s." % text
+    out.append(("run_remote", "src/bin/copia/incremental.rs run_remote", None, t_run_remote))
+
     def t_safe_join():
         src = read("src/bin/copia/serve.rs")
         spec = dict(signature=[("root", "Path"), ("rel", "str")],
@@ -1829,6 +1926,7 @@ GROUPS = {
     "ArchiveSave": ("Model.ArchiveSys", "archivesys", ["archive_save"]),
     "OneWaySys": ("Model.OneWaySys", "onewaysys", ["tmp_path", "deliver_local", "deliver_pull"]),
     "OneWayRun": ("Model.Glob Model.Plan Model.OneWay", "onewayrun", ["run_local"]),
+    "RemoteRun": ("Model.Glob Model.Plan Model.OneWay", "remoterun", ["run_remote"]),
     "Archive": ("Model.Archive", "archive", ["archive_load"]),
     "Plan": ("Model.Glob Model.Plan", False, ["needs_transfer", "glob_match", "is_excluded", "build_plan"]),
     "Protocol": ("Model.Checksum Model.Delta Model.Protocol", False, ["from_u8", "hvalidate"]),
@@ -1938,6 +2036,13 @@ def main():
                      "(* what run_local does, in order *)\n"
                      "Inductive leff := ENoFiles | EPrintPlan (p : sync_plan) (dry : bool) | EUpToDate | ECreateDirs (r : root) (dirs : list (list Z))\n"
                      "  | ESpawn (rel : list Z) (mtime : option Z) | EJoin | ERemove (at_ : root * list Z) | EReport.\n\n" + "\n".join(texts) + "End WithScans.\n")
+        elif digest == "remoterun":
+            body += ("\nSection WithScans.\nVariable local_meta remote_meta : metamap.   (* discover_local_with_meta(local_root), discover_remote_with_meta(host, remote_root) *)\n"
+                     "Variable collect_dirs : list (list Z) -> list (list Z).\n"
+                     "Inductive rdir := Push | Pull.\n"
+                     "(* what run_remote does, in order *)\n"
+                     "Inductive reff := ENoFiles | RPrintPlan (p : sync_plan) (dry : bool) | EUpToDate | RCreateDirs (d : rdir) (dirs : list (list Z))\n"
+                     "  | RSpawn (d : rdir) (rel : list Z) (mtime : option Z) | RJoin | RDeletes (d : rdir) (dels : list (list Z)) | RReport.\n\n" + "\n".join(texts) + "End WithScans.\n")
         elif digest == "archivesys":
             body = (HEADER % (group, imports)) + "\nSection WithFs.\nVariable path_exists : apath -> bool.   (* path.exists() *)\n\n" + "\n".join(texts) + "End WithFs.\n"
         elif digest == "onewaysys":
